@@ -26,6 +26,13 @@
 (* D2  a br_if to a value-carrying block is not taken and the carried value  *)
 (*     is consumed while the block is still open: its result register is      *)
 (*     recycled while still reserved for later exits of the block.            *)
+(*     The recycling is decided when the code is compiled, in code order: the    *)
+(*     register is free for everything that FOLLOWS the br_if inside the block -   *)
+(*     also on paths that never execute the br_if (the else arm of an `if` whose   *)
+(*     then arm holds it), and also for values the metering transformation adds    *)
+(*     (the flag of a metered br_if).  D2 is therefore also attributed to a run     *)
+(*     that executes code located, inside a value-carrying block or if, after a      *)
+(*     br_if to that block (D2Sites, computed from the program text).                *)
 (* D3  rem_s(MIN, -1) traps (checked_rem); the specification says 0.          *)
 (* D4  a br_if to the function-level label of a function with a result        *)
 (*     copies the carried value into register 0 (= local 0) before the        *)
@@ -63,8 +70,16 @@ Zeros(n) == [i \in 1..n |-> 0]
 SetsIn(body, from, to) ==
   {body[i].i : i \in {j \in from..to : j >= 1 /\ j <= Len(body) /\ body[j].op \in {"local.set", "local.tee"}}}
 
+(* program points located, inside a value-carrying block / if, after a br_if to that block *)
+EnclosesQ(body, ctlf, q, p) == body[q].op \in {"block", "loop", "if"} /\ q < p /\ ctlf[q].end > p
+DepthBetween(body, ctlf, s, p) == Cardinality({q \in (s + 1)..(p - 1) : EnclosesQ(body, ctlf, q, p)})
+D2Sites(body, ctlf) ==
+  UNION { UNION { IF body[p].op = "br_if" /\ body[p].l = DepthBetween(body, ctlf, s, p) THEN (p + 1)..ctlf[s].end ELSE {} : p \in (s + 1)..(ctlf[s].end - 1) }
+          : s \in { q \in 1..Len(body) : body[q].op \in {"block", "if"} /\ body[q].bt # 0 } }
+D2SitesOf(M) == LET ctl == CtlOf(M) IN [f \in 1..Len(M.funcs) |-> IF M.funcs[f].host THEN {} ELSE D2Sites(M.funcs[f].body, ctl[f])]
+
 StartH(M, f, args, hostq, dev) ==
-  Start(M, f, args, hostq) @@ [hz |-> {}, so |-> <<>>, fso |-> <<>>, ps |-> <<>>, fps |-> <<>>, pk |-> <<>>, fpk |-> <<>>, watch |-> {}, dev |-> dev, fired |-> {}]
+  Start(M, f, args, hostq) @@ [hz |-> {}, so |-> <<>>, fso |-> <<>>, ps |-> <<>>, fps |-> <<>>, pk |-> <<>>, fpk |-> <<>>, d2s |-> D2SitesOf(M), watch |-> {}, dev |-> dev, fired |-> {}]
 
 StepH(M, ctl, c) ==
   LET body == M.funcs[c.f].body
@@ -133,7 +148,8 @@ StepH(M, ctl, c) ==
       w1 == IF d2 THEN c.watch \cup {[depth |-> depth, lbl |-> Len(c.lb) - ins.l, h |-> n - 1]} ELSE c.watch
       w2 == {w \in w1 : w.depth <= Len(r.fr) /\ (w.depth < Len(r.fr) \/ Len(r.lb) >= w.lbl)}
       d2fire == \E w \in w2 : w.depth = Len(r.fr) /\ r.status = "run" /\ Len(r.st) < w.h
-      newHz == c.hz \cup (IF d1 THEN {"D1"} ELSE {}) \cup (IF d2fire THEN {"D2"} ELSE {})
+      d2static == c.pc \in c.d2s[c.f]
+      newHz == c.hz \cup (IF d1 THEN {"D1"} ELSE {}) \cup (IF d2fire \/ d2static THEN {"D2"} ELSE {})
                     \cup (IF d3 THEN {"D3"} ELSE {}) \cup (IF d4 THEN {"D4"} ELSE {}) \cup (IF d5 THEN {"D5"} ELSE {}) \cup (IF d6 THEN {"D6"} ELSE {})
       newFired == c.fired \cup (IF d3 /\ "D3" \in c.dev THEN {"D3"} ELSE {}) 
   IN [r EXCEPT !.hz = newHz, !.so = newSo, !.fso = newFso, !.ps = newPs, !.fps = newFps, !.pk = newPk, !.fpk = newFpk, !.watch = w2, !.fired = newFired]
